@@ -228,6 +228,12 @@ func (g *Gen) function(fn *ssa.Function, ct *Contract) {
 		for k, r := range g.topFrame.rets {
 			t, ok := g.hintAt(g.topFrame, r, h, fn, bindTop)
 			if !ok {
+				if h.All {
+					// a hint that must hold at every return site but cannot even be stated here (a name it uses is not defined on this path)
+					applied++
+					ho := g.oblige("hint", fmt.Sprintf("%s@return%d", h.Label, k), clauseProps(ct, h), fn, r.reach, "false", h.Src+"  (not expressible at this return site)", r.pos)
+					ho.Ground = true
+				}
 				continue
 			}
 			applied++
@@ -279,14 +285,22 @@ func (g *Gen) hintAt(f *Frame, r retInfo, h *Clause, fn *ssa.Function, bindTop f
 	for _, p := range fn.Params {
 		paramSet[p.Name()] = true
 	}
+	// blocks that dominate the return site, outermost first: later definitions of a name override earlier ones
+	var doms []*ssa.BasicBlock
 	for _, b := range fn.Blocks {
+		if r.block == nil || b.Dominates(r.block) {
+			doms = append(doms, b)
+		}
+	}
+	sort.Slice(doms, func(i, j int) bool { return doms[i].Dominates(doms[j]) && doms[i] != doms[j] })
+	for _, b := range doms {
 		for _, ins := range b.Instrs {
 			switch x := ins.(type) {
 			case *ssa.Alloc:
 				if x.Comment != "" {
 					if v, ok := f.vals[x]; ok && v.Ptr != nil && v.Ptr.Cell != nil {
 						if _, live := r.st.cells[v.Ptr.Cell]; live {
-							if _, taken := env.vars[x.Comment]; !taken {
+							if _, taken := paramSet[x.Comment]; !taken {
 								env.cellVars[x.Comment] = v.Ptr.Cell
 							}
 						}
@@ -294,19 +308,17 @@ func (g *Gen) hintAt(f *Frame, r retInfo, h *Clause, fn *ssa.Function, bindTop f
 				}
 			case *ssa.Phi:
 				name := strings.TrimPrefix(x.Comment, "#")
-				if v, ok := f.vals[x]; ok && name != "" {
-					if _, taken := env.vars[name]; !taken {
+				if v, ok := f.vals[x]; ok && name != "" && !paramSet[name] {
+					if _, isCell := env.cellVars[name]; !isCell {
 						env.vars[name] = v
 					}
 				}
 			case *ssa.DebugRef:
 				// single-assignment locals: the source identifier of an SSA value
 				if id, ok := x.Expr.(*ast.Ident); ok && !x.IsAddr {
-					if v, ok := f.vals[x.X]; ok {
-						if _, isParam := paramSet[id.Name]; !isParam {
-							if _, isCell := env.cellVars[id.Name]; !isCell {
-								env.vars[id.Name] = v
-							}
+					if v, ok := f.vals[x.X]; ok && !paramSet[id.Name] {
+						if _, isCell := env.cellVars[id.Name]; !isCell {
+							env.vars[id.Name] = v
 						}
 					}
 				}
